@@ -1,8 +1,10 @@
 ------------------------------ MODULE FreshGen ------------------------------
 (* GEN form: FreshMC plus a history variable.  TLC enumerates (or simulates) construction histories over the menu:  *)
-(*   fused : every Construct is followed by the Export of that artefact; histories = all sequences of <= GEN_DEPTH  *)
-(*           menu items, with at most GEN_RESTARTS interpreter restarts between two of them (exhaustive)            *)
-(*   free  : Construct / Export of any live artefact / Restart in any order, GEN_LEN steps (used with -simulate)    *)
+(*   fused : every Construct / Reconfigure is followed by the Export of that artefact; histories = all sequences of  *)
+(*           <= GEN_DEPTH steps, each a menu item built as a new object or a load_from_config item applied AGAIN to  *)
+(*           the object of a live artefact (kinds in Reconf), with at most GEN_RESTARTS interpreter restarts         *)
+(*           between two of them (exhaustive)                                                                       *)
+(*   free  : Construct / Reconfigure / Export of any live artefact / Restart in any order, GEN_LEN steps (-simulate) *)
 (* Import steps are forced (the only enabled step of an interpreter that has not imported) and not logged.          *)
 EXTENDS FreshMC, Json
 VARIABLES hist, done, pend, nres
@@ -20,6 +22,11 @@ GConstruct == /\ imported /\ pend = 0 /\ Len(arts) < Depth /\ (Fused \/ Len(hist
                                     /\ ConstructItem(m)
                                     /\ Log([op |-> "Construct", art |-> Len(arts) + 1, kind |-> m.kind, how |-> m.how, ex |-> m.ex])
               /\ pend' = (IF Fused THEN Len(arts) + 1 ELSE 0) /\ UNCHANGED <<done, nres>>
+GReconfigure == /\ imported /\ pend = 0 /\ Len(arts) < Depth /\ (Fused \/ Len(hist) < MaxLen)
+                /\ \E o \in live : \E m \in (IF Fused THEN ReconfItems(o) ELSE IF ReconfItems(o) = {} THEN {} ELSE {RandomElement(ReconfItems(o))}) :
+                                    /\ ReconfigureItem(o, m)
+                                    /\ Log([op |-> "Reconfigure", art |-> Len(arts) + 1, of |-> o, kind |-> m.kind, how |-> m.how, ex |-> m.ex])
+                /\ pend' = (IF Fused THEN Len(arts) + 1 ELSE 0) /\ UNCHANGED <<done, nres>>
 GExport == /\ imported /\ (IF Fused THEN pend # 0 ELSE Len(hist) < MaxLen)
            /\ \E a \in (IF Fused THEN {pend} ELSE live) : ExportArt(a) /\ Log([op |-> "Export", art |-> a])
            /\ pend' = 0 /\ UNCHANGED <<done, nres>>
@@ -28,5 +35,5 @@ GRestart == /\ imported /\ pend = 0 /\ nres < MaxRestarts /\ live # {} /\ Len(ar
 Finish == /\ ~done /\ pend = 0 /\ arts # <<>> /\ LastOp # "Restart" /\ (Fused \/ Len(hist) = MaxLen)
           /\ done' = TRUE /\ PrintT(ToJson(hist))
           /\ UNCHANGED <<arts, old, proc, live, imported, draws, nexp, hist, pend, nres>>
-GNext == ~done /\ (GImport \/ GConstruct \/ GExport \/ GRestart \/ Finish)
+GNext == ~done /\ (GImport \/ GConstruct \/ GReconfigure \/ GExport \/ GRestart \/ Finish)
 =============================================================================
